@@ -254,3 +254,112 @@ Proof.
   pose proof (ring_parity x v Hx (strip s) init (plain_strip s Hpl) (or_introl eq_refl) (NoDup_nil _) Hacc) as P.
   rewrite (count_strip x s (digit_not_space _ _ Hx)), Hodd in P. discriminate P.
 Qed.
+
+(* ------------------------------------------------------------------ reaching a position (plain strings) *)
+Lemma plain_app a rest : plain (a ++ rest) -> plain rest.
+Proof. intros [A B]. split; intros H; [apply A | apply B]; apply in_or_app; right; exact H. Qed.
+
+Lemma reach2 a : forall s rest, plain (a ++ rest) -> J2 s (a ++ rest) -> accepted (go s (a ++ rest)) ->
+  exists s', J2 s' rest /\ accepted (go s' rest) /\
+             prevc s' = match a with [] => prevc s | _ => Some (last a " ") end /\
+             prevc2 s' = match a with [] => prevc2 s | [_] => prevc s | _ => Some (last (removelast a) " ") end.
+Proof.
+  induction a as [|c a IH]; intros s rest Hpl HJ Hacc.
+  - exists s. auto.
+  - cbn [app go] in Hacc. destruct (step s c (a ++ rest)) as [s1|r] eqn:Es;
+      [|exfalso; eapply step_stop_not_accepted; [exact Es | exact Hacc]].
+    cbn [app] in Hpl. destruct (plain_tail _ _ Hpl) as [Hpl' [N1 N2]].
+    destruct (J2_step _ _ _ _ HJ N1 N2 Es) as [HJ1 _].
+    destruct (IH (advance c s1) rest Hpl' HJ1 Hacc) as [s' [A [B [C D]]]].
+    exists s'. split; [exact A|]. split; [exact B|]. split.
+    + rewrite C. destruct a; reflexivity.
+    + rewrite D. destruct a as [|x [|y a]]; cbn [prevc prevc2 advance]; try reflexivity.
+      (* prevc of s1 is prevc of s: a step never touches it *)
+      clear - Es. unfold step in Es.
+      assert (Bot : forall s0 bsym r0, bottom s0 bsym c r0 = Next s1 -> prevc s1 = prevc s0).
+      { intros s0 bsym r0 H. unfold bottom, add_bond in H. destruct (length (atoms s0) =? 1); [inversion H; reflexivity|].
+        destruct (ceqb bsym "="); [|inversion H; reflexivity].
+        unfold set_db_stereo in H. destruct (negb _); [inversion H; reflexivity|].
+        destruct (last _ _); [|discriminate]. destruct (if has_slash _ then _ else _); [|discriminate].
+        destruct (if slash_before _ then _ else _); [|discriminate]. inversion H; reflexivity. }
+      destruct (0 <? skip s); [inversion Es; reflexivity|].
+      destruct (is_bond_char c). { destruct (_ || _); inversion Es; reflexivity. }
+      destruct (is_digit c || ceqb c "%").
+      { destruct (length (atoms s) =? 0); [discriminate|]. destruct (pc_is s "(" || _); [discriminate|].
+        destruct (ring_idx c _); [|discriminate]. destruct (lookup _ _).
+        - destruct (prev _); [|discriminate]. destruct (atoms _); [discriminate|]. inversion Es. destruct (ceqb c "%"); reflexivity.
+        - destruct (prev _); [|discriminate]. inversion Es. destruct (ceqb c "%"); reflexivity. }
+      destruct (ceqb c "[").
+      { destruct (bracket_section _) as [sec|]; [|discriminate]. destruct (parse_sq_bracket sec); try discriminate.
+        apply Bot in Es. exact Es. }
+      destruct (ceqb c "("). { destruct (_ || _); [discriminate|]. destruct (pc_is s ")"); [inversion Es; reflexivity|].
+                               destruct (prev s); [inversion Es; reflexivity | discriminate]. }
+      destruct (ceqb c ")"). { destruct (branch s); [discriminate|]. destruct (pc_is s "("); [discriminate|].
+                               inversion Es. destruct (next_is _ "("); reflexivity. }
+      destruct (match [] ++ rest with d :: _ => mem_str [c; d] two_letter_organic | [] => false end).
+      { destruct ([] ++ rest); [discriminate|]. destruct (smiles_atom _ _ _ _ _); [|discriminate]. apply Bot in Es. exact Es. }
+      destruct (mem_str [c] _); [|discriminate]. destruct (smiles_atom _ _ _ _ _); [|discriminate]. apply Bot in Es. exact Es.
+Qed.
+
+Lemma J2_skip0 s x l : J2 s (x :: l) -> second_letter x = false -> skip s = 0.
+Proof. intros [H|[_ [d [l' [E Hd]]]]] Hx; [exact H|]. inversion E; subst. congruence. Qed.
+
+Lemma bond_not_second x : is_bond_char x = true -> second_letter x = false.
+Proof. destruct x as [[] [] [] [] [] [] [] []]; vm_compute; intros H; try discriminate H; reflexivity. Qed.
+Lemma dangling_follower y :
+  is_bond_char y || paren y = true -> mem_char y (bond_order_symbols ++ dangling_follow_chars) = true.
+Proof. destruct y as [[] [] [] [] [] [] [] []]; vm_compute; intros H; try discriminate H; reflexivity. Qed.
+
+(* a bond symbol followed by another bond symbol or a parenthesis (plain strings) *)
+Lemma reject_interior_dangling_go a x y b : is_bond_char x = true -> is_bond_char y || paren y = true ->
+  forall s, plain (a ++ x :: y :: b) -> J2 s (a ++ x :: y :: b) -> ~ accepted (go s (a ++ x :: y :: b)).
+Proof.
+  intros Hx Hy s Hpl HJ Hacc. destruct (reach2 a s _ Hpl HJ Hacc) as [s' [HJ' [Hacc' _]]].
+  pose proof (J2_skip0 _ _ _ HJ' (bond_not_second _ Hx)) as K.
+  cbn [go] in Hacc'. destruct (step s' x (y :: b)) as [s1|r] eqn:Es;
+    [|eapply step_stop_not_accepted; [exact Es | exact Hacc']].
+  unfold step in Es. rewrite K in Es. cbn [Nat.ltb Nat.leb] in Es. rewrite Hx in Es.
+  cbn [follows_dangling] in Es. rewrite (dangling_follower y Hy), orb_true_r in Es. discriminate.
+Qed.
+
+Lemma reject_interior_dangling_l s a x y b :
+  plain s -> strip s = a ++ x :: y :: b -> is_bond_char x = true -> is_bond_char y || paren y = true ->
+  parse s = Invalid.
+Proof.
+  intros Hpl Es Hx Hy. apply not_accepted_invalid. unfold parse.
+  pose proof (plain_strip s Hpl) as Hpl'. rewrite Es in *.
+  destruct (existsb _ _); [intros [u [v H]]; discriminate|].
+  apply reject_interior_dangling_go; [exact Hx | exact Hy | exact Hpl' | left; reflexivity].
+Qed.
+
+(* a ring label directly after "(" or after "(" and a bond symbol (plain strings) *)
+Lemma paren_not_second : second_letter "(" = false. Proof. reflexivity. Qed.
+
+Lemma reject_label_at_branch_start_go a d b : is_digit d = true ->
+  forall s, plain (a ++ "(" :: d :: b) -> J2 s (a ++ "(" :: d :: b) -> ~ accepted (go s (a ++ "(" :: d :: b)).
+Proof.
+  intros Hd s Hpl HJ Hacc.
+  replace (a ++ "(" :: d :: b) with ((a ++ ["("]) ++ d :: b) in * by (rewrite <- app_assoc; reflexivity).
+  destruct (reach2 (a ++ ["("]) s _ Hpl HJ Hacc) as [s' [HJ' [Hacc' [Pc _]]]].
+  assert (Hns : second_letter d = false).
+  { destruct (second_letter d) eqn:E; [|reflexivity]. destruct (second_letter_facts _ E) as [F _]. congruence. }
+  pose proof (J2_skip0 _ _ _ HJ' Hns) as K.
+  assert (Pc' : prevc s' = Some "(").
+  { rewrite Pc. destruct (a ++ ["("]) eqn:E; [destruct a; discriminate|]. rewrite <- E. rewrite last_last. reflexivity. }
+  cbn [go] in Hacc'. destruct (step s' d b) as [s1|r] eqn:Es;
+    [|eapply step_stop_not_accepted; [exact Es | exact Hacc']].
+  unfold step in Es. rewrite K in Es. cbn [Nat.ltb Nat.leb] in Es.
+  assert (Hb : is_bond_char d = false).
+  { clear - Hd. destruct d as [[] [] [] [] [] [] [] []]; vm_compute in Hd |- *; congruence. }
+  rewrite Hb, Hd in Es. cbn [orb] in Es. destruct (length (atoms s') =? 0); [discriminate|].
+    unfold pc_is in Es. rewrite Pc' in Es. change (ceqb "(" "(") with true in Es. cbn [orb] in Es. discriminate.
+Qed.
+
+Lemma reject_label_at_branch_start_l s a d b :
+  plain s -> strip s = a ++ "(" :: d :: b -> is_digit d = true -> parse s = Invalid.
+Proof.
+  intros Hpl Es Hd. apply not_accepted_invalid. unfold parse.
+  pose proof (plain_strip s Hpl) as Hpl'. rewrite Es in *.
+  destruct (existsb _ _); [intros [u [v H]]; discriminate|].
+  apply reject_label_at_branch_start_go; [exact Hd | exact Hpl' | left; reflexivity].
+Qed.
